@@ -1,3 +1,67 @@
-(* C04 — placeholder until the theorems are proved: see below. *)
-From Coq Require Import List ZArith NArith Bool Arith.
-From PK Require Import PyList Episodes Stage.
+(* C04 — Declared dimensions and sample counts match the arrays produced.
+   Only statements, closed by [exact]; proofs live in StageFacts.v / EpisodeSem.v. *)
+From Coq Require Import List ZArith NArith Bool Arith Lia.
+From PK Require Import PyList ListFacts Episodes EpisodesFacts Stage StageEqns StageSpec StageFacts EpisodeSem ZInst.
+Import ListNotations.
+Close Scope Z_scope.
+Open Scope nat_scope.
+
+(* every row produced by transform has width n_states_out + n_inputs_out, for every
+   stage tree, episode flag, and data matrix of the declared input width *)
+Theorem C04_widths : forall (T : Type) (O : ops T) (s : stage T) (ep : bool) (d : dims) (X : dmat T),
+  wf s d = true -> dwid (fst d + snd d) X ->
+  dwid (fst (sdims s d) + snd (sdims s d)) (transform O s ep d X).
+Proof. intros T O s. exact (transform_width O s). Qed.
+Print Assumptions C04_widths.
+
+(* in a chain each stage's input dims are the previous stage's output dims, and the
+   pipeline reports its last stage's *)
+Theorem C04_chain : forall (T : Type) (s : stage T) (c : chain T) (d : dims),
+  cdims (CCons s c) d = cdims c (sdims s d) /\ sdims (Pipe (CCons s c)) d = cdims c (sdims s d)
+  /\ cdims (CNil T) d = d.
+Proof. intros. repeat split; reflexivity. Qed.
+Print Assumptions C04_chain.
+
+(* each episode of length n >= min_samples yields n - min_samples + 1 lifted samples *)
+Theorem C04_samples : forall (T : Type) (O : ops T) (s : stage T) (d : dims) (X : dmat T) (i : N),
+  valid (min_samples s) X -> In i (labels X) ->
+  length (rows_of i (transform O s true d X)) = length (rows_of i X) + 1 - min_samples s.
+Proof. intros T O s d X i. exact (@transform_sample_count T O s d X i). Qed.
+Print Assumptions C04_samples.
+
+Theorem C04_samples_single : forall (T : Type) (O : ops T) (s : stage T) (d : dims) (X : dmat T),
+  min_samples s <= length X ->
+  length (transform O s false d X) = length X + 1 - min_samples s.
+Proof.
+  intros T O s d X H.
+  assert (Hr : forall Y : dmat T, length (rows Y) = length Y) by (intros; apply map_length).
+  rewrite <- (Hr (transform O s false d X)), (transform_false O s d X).
+  rewrite <- (Hr X) in *. exact (tf_ep_count O s d (rows X) H).
+Qed.
+Print Assumptions C04_samples_single.
+
+(* min_samples_ = n_samples_in(1); n_samples_in is additive over stages *)
+Theorem C04_min_samples : forall (T : Type) (s : stage T), min_samples s = samples_in s 1.
+Proof. reflexivity. Qed.
+Print Assumptions C04_min_samples.
+
+Theorem C04_additive : forall (T : Type) (s : stage T) (n : nat),
+  samples_in s n = n + (min_samples s - 1).
+Proof. intros T s n. exact (samples_in_additive s n). Qed.
+Print Assumptions C04_additive.
+
+Theorem C04_compose : forall (T : Type) (s : stage T) (c xs us : chain T) (n : nat),
+  csamples_in (CCons s c) n = samples_in s (csamples_in c n)
+  /\ samples_in (Split xs us) n = Nat.max (csamples_in xs n) (csamples_in us n)
+  /\ samples_in (Pipe c) n = csamples_in c n.
+Proof. intros. repeat split; reflexivity. Qed.
+Print Assumptions C04_compose.
+
+(* non-vacuity: a nested pipeline with delays, a split and a polynomial *)
+Definition c04_stage : zstage :=
+  Pipe (CCons (Leaf (LDelay Z 1 2))
+       (CCons (Split (CCons (Leaf (LPoly Z [[1;0];[0;1];[2;0];[1;1];[0;2]]%nat)) (CNil Z))
+                     (CCons (Leaf (LDelay Z 0 1)) (CNil Z))) (CNil Z))).
+Example C04_example :
+  wf c04_stage (1, 1) = true /\ sdims c04_stage (1, 1) = (5, 6) /\ min_samples c04_stage = 4.
+Proof. vm_compute. repeat split; reflexivity. Qed.
